@@ -10,6 +10,7 @@ mod loader;
 mod gqljs;
 mod opfile;
 mod parse;
+mod printer;
 mod paths;
 mod project;
 mod render;
@@ -37,6 +38,8 @@ fn main() {
         "loader" => loader::run(rest),
         "opfile" => opfile::run(rest),
         "parse" => parse::run(rest),
+        "roundtrip" => printer::run_roundtrip(rest),
+        "server" => printer::run_server(rest),
         "opfile-child" => opfile::run_child(rest),
         "opfile-cli" => opfile::run_cli(rest),
         "loader-child" => loader::run_child(rest),
